@@ -50,7 +50,15 @@ func InitProcess() {
 			}
 		}
 		cfg := zap.NewProductionConfig()
-		log.InitializeLogger(zap.NewNop(), &cfg)
+		if os.Getenv("VERIF_LOG") != "" {
+			// debugging aid: the core's own log on stderr
+			dcfg := zap.NewDevelopmentConfig()
+			if l, err := dcfg.Build(); err == nil {
+				log.InitializeLogger(l, &dcfg)
+			}
+		} else {
+			log.InitializeLogger(zap.NewNop(), &cfg)
+		}
 		objects.SetCompletingTimeout(time.Hour)
 		if os.Getenv("VERIF_GC") == "" {
 			debug.SetGCPercent(400)
@@ -897,4 +905,22 @@ func (w *World) RawForeign(fs *ForeignSpec, res Res) *si.Allocation {
 	}
 	return &si.Allocation{AllocationKey: fs.Key, PartitionName: PartitionName, NodeID: fs.Node, ResourcePerAlloc: res.ToProto(),
 		AllocationTags: map[string]string{siCommon.Foreign: typ, siCommon.CreationTime: "1000"}}
+}
+
+// AskLogs returns, per outstanding ask, the reasons the scheduler logged for not allocating it (debugging aid).
+func (w *World) AskLogs() map[string][]string {
+	out := map[string][]string{}
+	pc := w.part()
+	if pc == nil {
+		return out
+	}
+	active, _, _ := pc.VerifAllApplications()
+	for _, app := range active {
+		for _, a := range app.GetAllRequests() {
+			for _, e := range a.GetAllocationLog() {
+				out[a.GetAllocationKey()] = append(out[a.GetAllocationKey()], fmt.Sprintf("%s x%d", e.Message, e.Count))
+			}
+		}
+	}
+	return out
 }
